@@ -13,6 +13,8 @@
   (`[Num α]` / `[Transc α]`): `rfl`, or unfolding plus index arithmetic (`omega`); no field laws.
   Generated definitions are applied with NAMED arguments, so a swap of two names in the source
   is seen as well.
+  The flux inside `q_e` is the model's `Evap2D.vapourFlux` at `Evap2D.pLiquid/pSolid`; those three are tied
+  to utils.py in GenTie/Evap.lean (`pLiquid`, `pSolid`, `vapourFlux`).
   Not tied (calls the translator rejects): `BETA` (`np.ones`), `m_ice` (`np.zeros`), `simps(…)`,
   `np.linspace`, the `_stats` dict; they stay tied by the C02/C07/C15 correspondence.
 -/
@@ -88,20 +90,28 @@ def coolStepGen (c : Ctx α) (inplace : Bool) (Tsh : α) (qe : Nat → α) (T : 
 theorem cool_step (c : Ctx α) (inplace : Bool) (Tsh : α) (qe : Nat → α) (T : Array α) :
     coolStep c inplace Tsh qe T = coolStepGen c inplace Tsh qe T := rfl
 
-/-- inside the vacuum window of a VISF run the evaporative flux of column `j` is `-N_w * dHe` -/
+/-- the vapour flux the model evaluates at the top node of column `j` (its transcription of
+`utils.vapour_flux`, tied to the source in GenTie/Evap.lean, at the surface pressure of the stage) -/
+def fluxAt (c : Ctx α) (solidStage : Bool) (T : Array α) (j : Nat) : α :=
+  let Tl := rd c.Nr T (c.Nz - 1) j
+  let pv := if (solidStage || c.f.coolingSolidPvap) then Evap2D.pSolid Tl else Evap2D.pLiquid Tl
+  Evap2D.vapourFlux c.p.pi c.p.kappa c.p.m_water c.p.k_B c.p.p_vac pv Tl Tl
+
+/-- inside the vacuum window of a VISF run the evaporative flux of column `j` is the generated
+`-N_w * dHe` with `N_w` the model's vapour flux at the top node of that column -/
 theorem q_e (c : Ctx α) (solidStage : Bool) (time : α) (T : Array α) (j : Nat) (hv : c.p.config = .visf)
     (hw : c.p.t_vac_start * ofNat' 3600 < time ∧ time < (c.p.t_vac_start + c.p.t_vac_duration) * ofNat' 3600) :
-    ∃ Nw, qEvap c solidStage time T j = F2D.q_e (N_w := Nw) (dHe := c.p.dHe) := by
+    qEvap c solidStage time T j = F2D.q_e (N_w := fluxAt c solidStage T j) (dHe := c.p.dHe) := by
   simp only [qEvap, hv, F2D.q_e]
   rw [if_pos hw]
-  exact ⟨_, rfl⟩
+  rfl
 
 theorem solid_q_e (c : Ctx α) (solidStage : Bool) (time : α) (T : Array α) (j : Nat) (hv : c.p.config = .visf)
     (hw : c.p.t_vac_start * ofNat' 3600 < time ∧ time < (c.p.t_vac_start + c.p.t_vac_duration) * ofNat' 3600) :
-    ∃ Nw, qEvap c solidStage time T j = F2D.solid_q_e (N_w := Nw) (dHe := c.p.dHe) := by
+    qEvap c solidStage time T j = F2D.solid_q_e (N_w := fluxAt c solidStage T j) (dHe := c.p.dHe) := by
   simp only [qEvap, hv, F2D.solid_q_e]
   rw [if_pos hw]
-  exact ⟨_, rfl⟩
+  rfl
 
 /-! ### hazard -/
 
